@@ -1,5 +1,1127 @@
+// C12: local server.  A main server S (used as a raw ClientHook so that
+// calls can race with and follow Shutdown), a second server T and a plain
+// instrumented hook H as targets of result capabilities.  Method bodies are
+// driven by a per-call behaviour (ack immediately / late / never; return
+// early / when told / with an error / on cancellation).  A controller script
+// issues calls through 1-5 callers (each sequential in itself), pipelined
+// calls on unreturned answers (also chains, also beyond the queue size),
+// cancels contexts and shuts S down at a random step.
+//
+// Oracles: monitor-local invariants evaluated inside the log mutex at body
+// start (starting gate, concurrency cap, no start after Shutdown returned,
+// user shutdown exactly once and never while a body runs), a trace checker
+// for order / exactly-once / delivery target / results, and a porcupine FIFO
+// check of the pipelined-queue delivery order.
 package main
 
-import "capnproto.org/go/capnp/v3/zverif/common"
+import (
+	"context"
+	"errors"
+	"fmt"
+	"sort"
+	"strings"
+	"sync"
+	"time"
 
-func runC12(rec *common.Recorder, idx uint64, seed uint64, selfpipe bool) bool { return true }
+	"capnproto.org/go/capnp/v3"
+	"capnproto.org/go/capnp/v3/server"
+	"capnproto.org/go/capnp/v3/zverif/common"
+	"github.com/anishathalye/porcupine"
+)
+
+const (
+	objS = 0
+	objT = 1
+	objH = 2
+
+	ackNow   = 0
+	ackLate  = 1
+	ackNever = 2
+
+	retEarly     = 0
+	retGate      = 1 // block until told (ignores cancellation)
+	retError     = 2
+	retCancel    = 3 // block until cancelled
+	retGateOrCtx = 4 // block until told or cancelled
+)
+
+type beh struct {
+	Ack   int    `json:"ack"`
+	Ret   int    `json:"ret"`
+	CapsS [2]int `json:"capsS"` // result caps when run by S: -1 null, objT, objH (objS only in selfpipe mode)
+	CapsT [2]int `json:"capsT"` // result caps when run by T: -1 null, objH
+	gateA *gate
+	gateR *gate
+}
+
+type c12call struct {
+	UID    uint64 `json:"uid"`
+	Kind   string `json:"kind"` // send | recv | psend | precv
+	Srv    int    `json:"srv"`  // direct calls: objS / objT
+	Parent int    `json:"parent,omitempty"`
+	Path   int    `json:"path"`
+	Caller int    `json:"caller"`
+	B      *beh   `json:"beh"`
+
+	parent *c12call
+	ctx    context.Context
+	cancel context.CancelFunc
+
+	mu          sync.Mutex
+	tCall       int64
+	tRet        int64
+	cancelledAt int64
+	op          *asyncOp
+	ans         *capnp.Answer
+	rel         capnp.ReleaseFunc
+	rt          *iret
+	sendPanic   bool
+
+	// outcome
+	resOK    bool
+	resErr   string
+	resUID   uint64
+	resObj   uint64
+	waited   bool
+	safeWait bool
+	pipeable bool
+}
+
+type srvMon struct {
+	id    int
+	max   int
+	queue int
+	srv   *server.Server
+	// protected by log.mu
+	running      int
+	maxRunning   int
+	unacked      map[uint64]bool
+	shutCalled   int64
+	shutReturned int64
+	userShut     int
+}
+
+type userShutdown struct {
+	c  *c12
+	sm *srvMon
+}
+
+func (u userShutdown) Shutdown() {
+	c := u.c
+	c.cc.log.add("user-shutdown", u.sm.id, 0, "", func(t int64) {
+		u.sm.userShut++
+		if u.sm.userShut > 1 {
+			c.cc.violate("C12/user-shutdown-twice", "the user's Shutdown ran more than once", fmt.Sprintf("server=%d", u.sm.id))
+		}
+		if u.sm.running > 0 {
+			c.cc.violate("C12/shutdown-while-running", "the user's Shutdown ran while a method body was still running", fmt.Sprintf("server=%d running=%d", u.sm.id, u.sm.running))
+		}
+	})
+}
+
+type c12 struct {
+	cc      *caseCtx
+	rng     *common.RNG
+	S, T    *srvMon
+	H       *ihook
+	sClient *capnp.Client // only in selfpipe mode
+	tClient *capnp.Client
+	hClient *capnp.Client
+
+	mu       sync.Mutex
+	behs     map[uint64]*c12call
+	calls    []*c12call
+	script   []string
+	counts   map[string]int64
+	callerOf map[int]*c12call // outstanding Send per caller
+	shutOp   *asyncOp
+	selfpipe bool
+}
+
+var c12Method = capnp.Method{InterfaceID: 0xc0ffee, MethodID: 0}
+
+func (c *c12) lookup(uid uint64) *c12call {
+	c.mu.Lock()
+	defer c.mu.Unlock()
+	return c.behs[uid]
+}
+
+func (c *c12) body(sm *srvMon) func(context.Context, *server.Call) error {
+	return func(ctx context.Context, call *server.Call) error {
+		cc := c.cc
+		uid := call.Args().Uint64(0)
+		cl := c.lookup(uid)
+		cc.log.add("dlv-start", sm.id, uid, "", func(t int64) {
+			for u := range sm.unacked {
+				cc.violate("C12/started-before-ack", "a method body started before the previously started call had acknowledged delivery or returned",
+					fmt.Sprintf("server=%d new=%d unacked=%d", sm.id, uid, u))
+				break
+			}
+			sm.unacked[uid] = true
+			sm.running++
+			if sm.running > sm.maxRunning {
+				sm.maxRunning = sm.running
+			}
+			if sm.running > sm.max {
+				cc.violate("C12/cap-exceeded", "more method bodies running than MaxConcurrentCalls", fmt.Sprintf("server=%d running=%d max=%d", sm.id, sm.running, sm.max))
+			}
+			if sm.shutReturned != 0 {
+				cc.violate("C12/start-after-shutdown", "a method body started after Server.Shutdown had returned", fmt.Sprintf("server=%d uid=%d", sm.id, uid))
+			}
+		})
+		if cl == nil {
+			cc.violate("C12/unknown-call", "a method body saw a call the harness never made", fmt.Sprintf("uid=%d", uid))
+			return errors.New("unknown call")
+		}
+		b := cl.B
+		ack := func() {
+			cc.log.add("ack", sm.id, uid, "", func(int64) { delete(sm.unacked, uid) })
+			call.Ack()
+		}
+		var err error
+		switch b.Ack {
+		case ackNow:
+			ack()
+		case ackLate:
+			if err = b.gateA.passCtx(ctx); err == nil {
+				ack()
+			}
+		}
+		if err == nil {
+			switch b.Ret {
+			case retGate:
+				b.gateR.pass()
+			case retError:
+				err = errors.New("body error")
+			case retCancel:
+				<-ctx.Done()
+				err = ctx.Err()
+			case retGateOrCtx:
+				err = b.gateR.passCtx(ctx)
+			}
+		}
+		if err == nil {
+			res, aerr := call.AllocResults(capnp.ObjectSize{DataSize: 16, PointerCount: 2})
+			if aerr != nil {
+				err = aerr
+			} else {
+				res.SetUint64(0, uid)
+				res.SetUint64(8, uint64(sm.id))
+				caps := b.CapsS
+				if sm.id == objT {
+					caps = b.CapsT
+				}
+				for i, k := range caps {
+					var cl *capnp.Client
+					switch k {
+					case objS:
+						cl = c.sClient.AddRef()
+					case objT:
+						cl = c.tClient.AddRef()
+					case objH:
+						cl = c.hClient.AddRef()
+					default:
+						continue
+					}
+					id := res.Message().AddCap(cl)
+					res.SetPtr(uint16(i), capnp.NewInterface(res.Segment(), id).ToPtr())
+				}
+			}
+		}
+		cc.log.add("return", sm.id, uid, errClass(err), func(int64) {
+			delete(sm.unacked, uid)
+			sm.running--
+		})
+		return err
+	}
+}
+
+func (c *c12) newServer(id int, rng *common.RNG) *srvMon {
+	sm := &srvMon{id: id, max: rng.Range(1, 4), queue: rng.Range(1, 8), unacked: map[uint64]bool{}}
+	sm.srv = server.New([]server.Method{{Method: c12Method, Impl: c.body(sm)}}, id, userShutdown{c, sm},
+		&server.Policy{MaxConcurrentCalls: sm.max, AnswerQueueSize: sm.queue})
+	return sm
+}
+
+func (c *c12) logOp(f string, a ...interface{}) { c.script = append(c.script, fmt.Sprintf(f, a...)) }
+
+func (c *c12) newBeh(rng *common.RNG, pipe bool) *beh {
+	b := &beh{gateA: c.cc.newGate(), gateR: c.cc.newGate()}
+	b.gateA.arm()
+	b.gateR.arm()
+	b.Ack = rng.PickInt(ackNow, ackNow, ackNow, ackLate, ackLate, ackNever)
+	if pipe {
+		b.Ret = rng.PickInt(retEarly, retEarly, retGate, retGateOrCtx, retError)
+	} else {
+		b.Ret = rng.PickInt(retEarly, retEarly, retGate, retGate, retGateOrCtx, retError, retCancel)
+	}
+	for i := range b.CapsS {
+		b.CapsS[i] = rng.PickInt(-1, objT, objT, objH)
+		b.CapsT[i] = rng.PickInt(-1, objH, objH)
+	}
+	return b
+}
+
+// ---- generator-side termination bookkeeping -----------------------------------
+
+func (c *c12) isCancelled(cl *c12call) bool {
+	cl.mu.Lock()
+	defer cl.mu.Unlock()
+	return cl.cancelledAt != 0
+}
+
+// finishable: the body of cl (if it runs) is guaranteed to return, given the
+// gates opened and contexts cancelled so far.
+func (c *c12) finishable(cl *c12call, shutS bool) bool {
+	b := cl.B
+	canc := c.isCancelled(cl) || (shutS && cl.Srv == objS && cl.parent == nil)
+	if b.Ack == ackLate && b.gateA.isArmed() && !canc {
+		return false
+	}
+	switch b.Ret {
+	case retGate:
+		return !b.gateR.isArmed()
+	case retGateOrCtx:
+		return !b.gateR.isArmed() || canc
+	case retCancel:
+		return canc
+	}
+	return true
+}
+
+func (c *c12) makeFinishable(cl *c12call) {
+	b := cl.B
+	if b.Ack == ackLate && b.gateA.isArmed() {
+		b.gateA.open()
+		c.logOp("openA %d", cl.UID)
+	}
+	switch b.Ret {
+	case retGate, retGateOrCtx:
+		if b.gateR.isArmed() {
+			b.gateR.open()
+			c.logOp("openR %d", cl.UID)
+		}
+	case retCancel:
+		c.doCancel(cl)
+	}
+}
+
+func (c *c12) ackable(cl *c12call, shutS bool) bool {
+	b := cl.B
+	if b.Ack == ackNow {
+		return true
+	}
+	if b.Ack == ackLate && !b.gateA.isArmed() {
+		return true
+	}
+	return c.finishable(cl, shutS)
+}
+
+func (c *c12) makeAckable(cl *c12call) {
+	b := cl.B
+	if b.Ack == ackLate {
+		if b.gateA.isArmed() {
+			b.gateA.open()
+			c.logOp("openA %d", cl.UID)
+		}
+		return
+	}
+	c.makeFinishable(cl)
+}
+
+func (c *c12) doCancel(cl *c12call) {
+	cl.mu.Lock()
+	if cl.cancelledAt == 0 {
+		cl.cancelledAt = c.cc.log.tick()
+	}
+	cl.mu.Unlock()
+	cl.cancel()
+	c.logOp("cancel %d", cl.UID)
+	c.counts["op_cancel"]++
+}
+
+// ensureProgress makes sure that every call issued so far can get through
+// the starting gate and that fewer than Max bodies can stay running for
+// ever on each server - a sufficient condition for any pending Send /
+// PipelineSend to return in a correct implementation.
+func (c *c12) ensureProgress() {
+	shutS := c.shutOp != nil
+	for _, sm := range []*srvMon{c.S, c.T} {
+		var stuck []*c12call
+		for _, cl := range c.calls {
+			onThis := (cl.parent == nil && cl.Srv == sm.id) || (cl.parent != nil && (sm.id == objT || c.selfpipe))
+			if !onThis {
+				continue
+			}
+			if !c.ackable(cl, shutS) {
+				c.makeAckable(cl)
+			}
+			if !c.finishable(cl, shutS) {
+				stuck = append(stuck, cl)
+			}
+		}
+		for len(stuck) >= sm.max {
+			c.makeFinishable(stuck[0])
+			stuck = stuck[1:]
+		}
+	}
+}
+
+// ---- issuing calls --------------------------------------------------------------
+
+func (c *c12) register(cl *c12call) {
+	cl.ctx, cl.cancel = context.WithCancel(context.Background())
+	c.mu.Lock()
+	cl.UID = uint64(len(c.calls) + 1)
+	c.behs[cl.UID] = cl
+	c.calls = append(c.calls, cl)
+	c.mu.Unlock()
+}
+
+func (c *c12) issueDirect(cl *c12call) {
+	cc := c.cc
+	c.register(cl)
+	c.logOp("call uid=%d caller=%d srv=%d kind=%s ack=%d ret=%d capsS=%v", cl.UID, cl.Caller, cl.Srv, cl.Kind, cl.B.Ack, cl.B.Ret, cl.B.CapsS)
+	c.counts["op_call_"+cl.Kind]++
+	var hook capnp.ClientHook
+	var client *capnp.Client
+	switch {
+	case cl.Srv == objS && c.sClient != nil:
+		client = c.sClient
+	case cl.Srv == objS:
+		hook = c.S.srv
+	default:
+		client = c.tClient
+	}
+	var rv capnp.Recv
+	if cl.Kind == "recv" {
+		rv, cl.rt = cc.recvFor(cl.UID, 0)
+	}
+	cl.tCall = cc.log.tick()
+	cl.op = cc.goOp(fmt.Sprintf("%s uid=%d", cl.Kind, cl.UID), func() {
+		defer func() {
+			t := cc.log.tick()
+			cl.mu.Lock()
+			cl.tRet = t
+			cl.mu.Unlock()
+		}()
+		if cl.Kind == "recv" {
+			if client != nil {
+				client.RecvCall(cl.ctx, rv)
+			} else {
+				hook.Recv(cl.ctx, rv)
+			}
+			return
+		}
+		var ans *capnp.Answer
+		var rel capnp.ReleaseFunc
+		if client != nil {
+			ans, rel = client.SendCall(cl.ctx, sendFor(cl.UID, 0))
+		} else {
+			ans, rel = hook.Send(cl.ctx, sendFor(cl.UID, 0))
+		}
+		cl.mu.Lock()
+		cl.ans, cl.rel = ans, rel
+		cl.mu.Unlock()
+	})
+}
+
+func pathXform(p int) []capnp.PipelineOp { return []capnp.PipelineOp{{Field: uint16(p)}} }
+
+func (c *c12) issuePipe(cl *c12call) {
+	cc := c.cc
+	c.register(cl)
+	cl.Parent = int(cl.parent.UID)
+	c.logOp("pipe uid=%d on=%d path=%d kind=%s ack=%d ret=%d capsT=%v", cl.UID, cl.parent.UID, cl.Path, cl.Kind, cl.B.Ack, cl.B.Ret, cl.B.CapsT)
+	c.counts["op_"+cl.Kind]++
+	cl.parent.mu.Lock()
+	pans := cl.parent.ans
+	cl.parent.mu.Unlock()
+	var rv capnp.Recv
+	if cl.Kind == "precv" {
+		rv, cl.rt = cc.recvFor(cl.UID, 0)
+	}
+	cl.tCall = cc.log.tick()
+	cl.op = cc.goOp(fmt.Sprintf("%s uid=%d", cl.Kind, cl.UID), func() {
+		defer func() {
+			t := cc.log.tick()
+			cl.mu.Lock()
+			cl.tRet = t
+			cl.mu.Unlock()
+		}()
+		if cl.Kind == "precv" {
+			pans.PipelineRecv(cl.ctx, pathXform(cl.Path), rv)
+			return
+		}
+		ans, rel := pans.PipelineSend(cl.ctx, pathXform(cl.Path), sendFor(cl.UID, 0))
+		cl.mu.Lock()
+		cl.ans, cl.rel = ans, rel
+		cl.mu.Unlock()
+	})
+}
+
+// waitSend waits for the Send / PipelineSend of cl to return.
+func (c *c12) waitSend(cl *c12call) bool {
+	if cl.waited {
+		return true
+	}
+	c.ensureProgress()
+	if !c.cc.await(cl.op.name, cl.op.isDone) {
+		return false
+	}
+	cl.waited = true
+	if cl.op.pan != nil {
+		cl.sendPanic = true
+		c.cc.panicViolation(cl.op.name, cl.op.pan)
+	}
+	return true
+}
+
+func (c *c12) hasAnswer(cl *c12call) bool {
+	cl.mu.Lock()
+	defer cl.mu.Unlock()
+	return cl.ans != nil
+}
+
+// ---- the case ---------------------------------------------------------------------
+
+func runC12(rec *common.Recorder, idx uint64, seed uint64, selfpipe bool) bool {
+	rng := common.NewRNG(seed)
+	cc := newCase(rec, idx)
+	c := &c12{cc: cc, rng: rng, behs: map[uint64]*c12call{}, counts: map[string]int64{}, callerOf: map[int]*c12call{}, selfpipe: selfpipe}
+	c.S = c.newServer(objS, rng)
+	c.T = c.newServer(objT, rng)
+	c.H = cc.newHook(objH)
+	c.tClient = capnp.NewClient(c.T.srv)
+	c.hClient = capnp.NewClient(c.H)
+	// Stall handler: besides opening every gate, cancel the calls whose body
+	// can only end by cancellation (they are the script's to cancel).
+	cc.onStall = func() {
+		c.mu.Lock()
+		cs := append([]*c12call(nil), c.calls...)
+		c.mu.Unlock()
+		for _, cl := range cs {
+			if cl.B.Ret == retCancel {
+				cl.cancel()
+			}
+		}
+	}
+	setPolicy(rng.Uint64()|1, srvSites)
+	ok := true
+	if selfpipe {
+		ok = c.runSelfPipe(rec, idx)
+	} else {
+		ok = c.runScript(rec, idx)
+	}
+	cc.openAll()
+	hadViol := cc.numViol() > 0
+	pre := "c12_"
+	if selfpipe {
+		pre = "c12self_"
+	}
+	for k, v := range c.counts {
+		rec.Count(pre+k, v)
+	}
+	rec.Count(pre+"scripts", 1)
+	if cc.stallRecovered > 0 {
+		rec.Count(pre+"stall_recovered", int64(cc.stallRecovered))
+	}
+	evs := cc.log.snapshot()
+	if len(c.calls) >= 2 {
+		rec.Distinct(common.Hash64([]byte(strings.Join(c.script, "\n")), []byte(fmt.Sprint(orderHash(evs)))))
+	}
+	if rec.WantSample() && len(c.script) > 6 {
+		rec.Sample(map[string]interface{}{"mode": "c12", "index": idx, "S": []int{c.S.max, c.S.queue}, "T": []int{c.T.max, c.T.queue}, "script": c.script})
+	}
+	cc.flush(map[string]interface{}{"S": map[string]int{"max": c.S.max, "queue": c.S.queue}, "T": map[string]int{"max": c.T.max, "queue": c.T.queue},
+		"script": c.script, "calls": c.calls, "events": tail(evs, 400)})
+	return ok && !cc.dead && !hadViol
+}
+
+func (c *c12) runScript(rec *common.Recorder, idx uint64) bool {
+	cc, rng := c.cc, c.rng
+	ncallers := 1 + rng.Range(0, 4)
+	nops := rng.Range(6, 36)
+	shutAt := -1
+	if rng.Chance(1, 2) {
+		shutAt = nops/3 + rng.Intn(nops-nops/3)
+	}
+	rec.Case(idx, fmt.Sprintf("c12 S(max=%d,q=%d) T(max=%d,q=%d) callers=%d ops=%d shutAt=%d", c.S.max, c.S.queue, c.T.max, c.T.queue, ncallers, nops, shutAt))
+	pipesOn := map[uint64]int{} // root answer uid -> number of pipelined calls issued
+	var pipeable []*c12call
+	addPipeable := func(cl *c12call) {
+		if (cl.Kind == "send" || cl.Kind == "psend") && c.hasAnswer(cl) && !cl.pipeable {
+			cl.pipeable = true
+			pipeable = append(pipeable, cl)
+		}
+	}
+
+	for i := 0; i < nops && cc.numViol() == 0; i++ {
+		if i == shutAt && c.shutOp == nil {
+			c.logOp("shutdown S")
+			c.counts["op_shutdown_in_script"]++
+			c.startShutdown()
+			continue
+		}
+		r := rng.Intn(100)
+		switch {
+		case r < 38: // direct call
+			g := 0
+			if ncallers > 1 && rng.Chance(2, 3) {
+				g = rng.Intn(ncallers)
+			}
+			if prev := c.callerOf[g]; prev != nil {
+				if !c.waitSend(prev) {
+					return false
+				}
+				addPipeable(prev)
+			}
+			cl := &c12call{Kind: "send", Srv: objS, Caller: g, B: c.newBeh(rng, false)}
+			if rng.Chance(1, 4) {
+				cl.Kind = "recv"
+			}
+			if rng.Chance(1, 6) {
+				cl.Srv = objT
+				cl.B = c.newBeh(rng, true)
+			}
+			c.issueDirect(cl)
+			c.callerOf[g] = cl
+			if c.shutOp != nil && cl.Srv == objS {
+				c.counts["call_after_shutdown_began"]++
+			}
+		case r < 46: // wait for a caller's Send
+			for g := 0; g < ncallers; g++ {
+				prev := c.callerOf[g]
+				if prev != nil && !prev.waited {
+					c.logOp("wait caller %d", g)
+					if !c.waitSend(prev) {
+						return false
+					}
+					addPipeable(prev)
+					break
+				}
+			}
+		case r < 74: // pipelined call
+			if len(pipeable) == 0 {
+				continue
+			}
+			p := pipeable[rng.Intn(len(pipeable))]
+			for try := 0; try < 4; try++ {
+				if rng.Chance(2, 3) { // prefer the latest answers (more likely unreturned)
+					p = pipeable[len(pipeable)-1-rng.Intn(min(3, len(pipeable)))]
+				} else {
+					p = pipeable[rng.Intn(len(pipeable))]
+				}
+				if p.B.Ret != retError && p.B.Ret != retCancel {
+					break
+				}
+			}
+			cl := &c12call{Kind: "psend", parent: p, Path: rng.PickInt(0, 0, 0, 1, 1, 1, 2), B: c.newBeh(rng, true), Caller: -1}
+			if rng.Chance(1, 4) {
+				cl.Kind = "precv"
+			}
+			root := p
+			for root.parent != nil {
+				root = root.parent
+			}
+			pipesOn[root.UID]++
+			if p.parent != nil {
+				c.counts["pipe_chained"]++
+			}
+			c.issuePipe(cl)
+			// wait for the PipelineSend only when it cannot be stuck behind a full queue
+			cl.safeWait = pipesOn[root.UID] <= c.S.queue && pipesOn[root.UID] <= c.T.queue
+			if cl.safeWait && rng.Chance(1, 2) {
+				c.logOp("waitpipe %d", cl.UID)
+				if !c.waitSend(cl) {
+					return false
+				}
+				addPipeable(cl)
+			} else if pipesOn[root.UID] > c.S.queue {
+				c.counts["pipe_beyond_queue_size"]++
+			}
+		case r < 82: // open a gate
+			if len(c.calls) == 0 {
+				continue
+			}
+			cl := c.calls[rng.Intn(len(c.calls))]
+			if rng.Bool() {
+				cl.B.gateA.open()
+				c.logOp("openA %d", cl.UID)
+			} else {
+				cl.B.gateR.open()
+				c.logOp("openR %d", cl.UID)
+			}
+		case r < 86: // cancel
+			if len(c.calls) == 0 {
+				continue
+			}
+			c.doCancel(c.calls[rng.Intn(len(c.calls))])
+		case r < 94: // wait for the oldest pipelined Send that cannot be stuck behind a full queue
+			for _, cl := range c.calls {
+				if cl.parent != nil && !cl.waited && cl.safeWait {
+					c.logOp("waitpipe %d", cl.UID)
+					if !c.waitSend(cl) {
+						return false
+					}
+					addPipeable(cl)
+					break
+				}
+			}
+		default:
+			time.Sleep(time.Duration(rng.Intn(200)) * time.Microsecond)
+		}
+	}
+	if cc.numViol() > 0 {
+		return true
+	}
+	return c.finishCase(rng)
+}
+
+func min(a, b int) int {
+	if a < b {
+		return a
+	}
+	return b
+}
+
+func (c *c12) startShutdown() {
+	cc := c.cc
+	sm := c.S
+	cc.log.add("shutdown-call", sm.id, 0, "", func(t int64) { sm.shutCalled = t })
+	c.shutOp = cc.goOp("Server.Shutdown", func() {
+		sm.srv.Shutdown()
+		cc.log.add("shutdown-ret", sm.id, 0, "", func(t int64) { sm.shutReturned = t })
+	})
+}
+
+// finishCase: epilogue + checks.
+func (c *c12) finishCase(rng *common.RNG) bool {
+	cc := c.cc
+	// 1. let everything that only waits for the script run to completion
+	for _, cl := range c.calls {
+		cl.B.gateA.open()
+		cl.B.gateR.open()
+	}
+	c.H.gate.open()
+	c.logOp("epilogue: all gates open")
+	// 2. Shutdown of S cancels what is still running there
+	if c.shutOp == nil && c.sClient == nil {
+		c.logOp("epilogue: shutdown S")
+		c.startShutdown()
+	}
+	// 3. every Send / PipelineSend returns
+	for _, cl := range c.calls {
+		if !cl.waited {
+			if !cc.await(cl.op.name, cl.op.isDone) {
+				return false
+			}
+			cl.waited = true
+			if cl.op.pan != nil {
+				cl.sendPanic = true
+				cc.panicViolation(cl.op.name, cl.op.pan)
+			}
+		}
+	}
+	if cc.numViol() > 0 {
+		return true
+	}
+	// 4. every answer resolves
+	for _, cl := range c.calls {
+		cl := cl
+		switch {
+		case cl.rt != nil:
+			if !cc.await(fmt.Sprintf("Returner of uid=%d", cl.UID), cl.rt.returned) {
+				return false
+			}
+			st, err := cl.rt.result()
+			c.outcome(cl, st, err)
+		case cl.ans != nil:
+			var st capnp.Struct
+			var err error
+			op := cc.goOp(fmt.Sprintf("Answer.Struct uid=%d", cl.UID), func() { st, err = cl.ans.Struct() })
+			if !cc.join(op) {
+				return false
+			}
+			c.outcome(cl, st, err)
+		}
+	}
+	if c.shutOp != nil {
+		if !cc.join(c.shutOp) {
+			return false
+		}
+		// 5. a call after Shutdown returned must be rejected and never start
+		for n := 0; n < 2; n++ {
+			cl := &c12call{Kind: "send", Srv: objS, Caller: 99, B: c.newBeh(rng, false)}
+			if n == 1 {
+				cl.Kind = "recv"
+			}
+			cl.B.Ack, cl.B.Ret = ackNow, retEarly
+			c.issueDirect(cl)
+			if !cc.join(cl.op) {
+				return false
+			}
+			cl.waited = true
+			var err error
+			if cl.rt != nil {
+				if !cl.rt.returned() {
+					cc.violate("C12/call-after-shutdown-not-answered", "a Recv call after Shutdown was neither rejected nor started", "")
+				}
+				_, err = cl.rt.result()
+			} else if cl.ans != nil {
+				op := cc.goOp("Answer.Struct (post-shutdown call)", func() { _, err = cl.ans.Struct() })
+				if !cc.join(op) {
+					return false
+				}
+			}
+			if err == nil {
+				cc.violate("C12/call-after-shutdown-succeeded", "a call made after Server.Shutdown returned did not fail", fmt.Sprintf("uid=%d", cl.UID))
+			} else {
+				c.counts["post_shutdown_call_rejected"]++
+			}
+			cl.resErr = errClass(err)
+		}
+	}
+	c.check()
+	if cc.numViol() > 0 {
+		return true
+	}
+	// 6. release answers, then the master references: T and H shut down once
+	for _, cl := range c.calls {
+		if cl.rel != nil {
+			rel := cl.rel
+			if !cc.run("ReleaseFunc", func() { rel() }) {
+				return false
+			}
+		}
+		if cl.rt != nil {
+			rt := cl.rt
+			if !cc.run("release Recv results", func() { rt.release() }) {
+				return false
+			}
+		}
+	}
+	if c.sClient != nil {
+		if !cc.run("release S client", func() { c.sClient.Release() }) {
+			return false
+		}
+	}
+	if !cc.run("release T client", func() { c.tClient.Release() }) {
+		return false
+	}
+	if !cc.run("release H client", func() { c.hClient.Release() }) {
+		return false
+	}
+	cc.log.mu.Lock()
+	su, tu := c.S.userShut, c.T.userShut
+	cc.log.mu.Unlock()
+	if su != 1 {
+		cc.violate("C12/user-shutdown-count", "the user's Shutdown of the main server did not run exactly once", fmt.Sprintf("count=%d", su))
+	}
+	if tu != 1 {
+		cc.violate("C12/user-shutdown-count", "the user's Shutdown of the target server did not run exactly once after its last reference was released", fmt.Sprintf("count=%d", tu))
+	}
+	if n := c.H.shutdowns(); n != 1 {
+		cc.violate("C12/result-cap-refcount", "the plain target hook was not shut down exactly once after all results were released", fmt.Sprintf("count=%d", n))
+	}
+	return true
+}
+
+func (c *c12) outcome(cl *c12call, st capnp.Struct, err error) {
+	if err != nil {
+		cl.resErr = errClass(err)
+		if cl.resErr == "" {
+			cl.resErr = "err"
+		}
+		return
+	}
+	cl.resOK = true
+	cl.resUID = st.Uint64(0)
+	cl.resObj = st.Uint64(8)
+}
+
+// ---- trace checker ------------------------------------------------------------------
+
+type dlvInfo struct {
+	obj   int
+	t     int64
+	n     int
+	retOK bool // the body (or hook) returned success
+	retT  int64
+	ret   bool
+}
+
+func (c *c12) check() {
+	cc := c.cc
+	evs := cc.log.snapshot()
+	dl := map[uint64]*dlvInfo{}
+	for _, e := range evs {
+		switch {
+		case strings.HasPrefix(e.K, "dlv-"):
+			d := dl[e.U]
+			if d == nil {
+				d = &dlvInfo{obj: e.O, t: e.T}
+				dl[e.U] = d
+			}
+			d.n++
+		case e.K == "return" || e.K == "end-recv" || e.K == "end-send":
+			if d := dl[e.U]; d != nil && !d.ret {
+				d.ret, d.retT, d.retOK = true, e.T, e.X == ""
+			}
+		}
+	}
+	// where did the parent run / what did it return
+	succeeded := func(cl *c12call) bool {
+		d := dl[cl.UID]
+		return d != nil && d.ret && d.retOK
+	}
+	expectTarget := func(cl *c12call) int { // -1: must fail
+		p := cl.parent
+		if !succeeded(p) || cl.Path > 1 {
+			return -1
+		}
+		switch dl[p.UID].obj {
+		case objS:
+			return p.B.CapsS[cl.Path]
+		case objT:
+			return p.B.CapsT[cl.Path]
+		}
+		return -1 // H results carry no capabilities
+	}
+	for _, cl := range c.calls {
+		if cl.sendPanic {
+			continue
+		}
+		d := dl[cl.UID]
+		if d != nil && d.n > 1 {
+			cc.violate("C12/call-delivered-twice", "one call was started more than once", fmt.Sprintf("uid=%d n=%d", cl.UID, d.n))
+			continue
+		}
+		if cl.parent == nil {
+			if d != nil && d.obj != cl.Srv {
+				cc.violate("C12/misdelivered", "a direct call was started on another object", fmt.Sprintf("uid=%d obj=%d want=%d", cl.UID, d.obj, cl.Srv))
+			}
+		} else {
+			want := expectTarget(cl)
+			switch {
+			case d != nil && want < 0:
+				sig := "C12/delivered-after-error"
+				if succeeded(cl.parent) {
+					sig = "C12/misdelivered"
+				}
+				cc.violate(sig, "a pipelined call was delivered although its answer failed or its path holds no capability",
+					fmt.Sprintf("uid=%d parent=%d path=%d delivered-to=%d", cl.UID, cl.parent.UID, cl.Path, d.obj))
+			case d != nil && d.obj != want:
+				sig := "C12/misdelivered"
+				if cl.parent.parent != nil {
+					sig += "/chained-pipeline"
+				}
+				cc.violate(sig, "a pipelined call was delivered to a capability other than the one at its path in the answer it was made on",
+					fmt.Sprintf("uid=%d parent=%d path=%d delivered-to=%d want=%d", cl.UID, cl.parent.UID, cl.Path, d.obj, want))
+			case d == nil && want >= 0 && !c.isCancelled(cl) && cc.stallStamp == 0:
+				cc.violate("C12/call-lost", "a pipelined call on an answer that returned successfully was never delivered (and not cancelled)",
+					fmt.Sprintf("uid=%d parent=%d path=%d want=%d result=%q", cl.UID, cl.parent.UID, cl.Path, want, cl.resErr))
+			case d != nil:
+				c.counts["pipe_delivered"]++
+				if cl.parent.parent != nil {
+					c.counts["pipe_chained_delivered"]++
+				}
+				if pd := dl[cl.parent.UID]; pd != nil && pd.ret && cl.tRet != 0 && cl.tRet < pd.retT {
+					c.counts["pipe_issued_before_return"]++
+				}
+			}
+		}
+		// result
+		if cl.rt == nil && cl.ans == nil {
+			continue
+		}
+		switch {
+		case d != nil && d.ret && d.retOK:
+			if !cl.resOK || cl.resUID != cl.UID || int(cl.resObj) != d.obj {
+				cc.violate("C12/wrong-result", "the caller's answer is not the result the implementation returned",
+					fmt.Sprintf("uid=%d ok=%v err=%q resUID=%d resObj=%d ranOn=%d", cl.UID, cl.resOK, cl.resErr, cl.resUID, cl.resObj, d.obj))
+			} else {
+				c.counts["answers_ok"]++
+			}
+		case d != nil && d.ret && !d.retOK:
+			if cl.resOK {
+				cc.violate("C12/wrong-result", "the implementation returned an error but the caller's answer succeeded", fmt.Sprintf("uid=%d", cl.UID))
+			} else {
+				c.counts["answers_error_from_body"]++
+			}
+		case d == nil:
+			if cl.resOK {
+				cc.violate("C12/wrong-result", "a call that was never delivered produced a successful answer", fmt.Sprintf("uid=%d", cl.UID))
+			} else {
+				c.counts["answers_error_undelivered"]++
+			}
+		}
+	}
+	// order: calls on the same object (direct) / same (answer,path) (pipelined)
+	type grp struct {
+		pipe bool
+		a, b int
+	}
+	groups := map[grp][]*c12call{}
+	for _, cl := range c.calls {
+		if dl[cl.UID] == nil || cl.tRet == 0 {
+			continue
+		}
+		if cl.parent == nil {
+			groups[grp{false, cl.Srv, 0}] = append(groups[grp{false, cl.Srv, 0}], cl)
+		} else {
+			groups[grp{true, int(cl.parent.UID), cl.Path}] = append(groups[grp{true, int(cl.parent.UID), cl.Path}], cl)
+		}
+	}
+	for g, cs := range groups {
+		for _, a := range cs {
+			for _, b := range cs {
+				if a == b || !(a.tRet < b.tCall) {
+					continue
+				}
+				c.counts["order_pairs_checked"]++
+				if !(dl[a.UID].t < dl[b.UID].t) {
+					sig := "C12/order"
+					if g.pipe {
+						sig = "C12/order/pipelined"
+					}
+					cc.violate(sig, "two calls made one after the other were observed by the implementation in the opposite order",
+						fmt.Sprintf("first uid=%d [%d,%d] start@%d; second uid=%d [%d,%d] start@%d", a.UID, a.tCall, a.tRet, dl[a.UID].t, b.UID, b.tCall, b.tRet, dl[b.UID].t))
+				}
+			}
+		}
+		if g.pipe && len(cs) >= 2 {
+			c.fifoCheck(cs, dl)
+		}
+	}
+	// Shutdown must cancel running calls: a body that only ended when the
+	// stall handler cancelled every context although Shutdown had been called
+	if cc.stallStamp != 0 && c.S.shutCalled != 0 && c.S.shutCalled < cc.stallStamp {
+		for _, cl := range c.calls {
+			d := dl[cl.UID]
+			if d == nil || d.obj != objS || !d.ret || c.isCancelled(cl) {
+				continue
+			}
+			if (cl.B.Ret == retCancel) && d.t < c.S.shutCalled && d.retT > cc.stallStamp {
+				cc.violate("C12/shutdown-did-not-cancel", "a running call was not cancelled by Server.Shutdown (it ended only when the harness cancelled its context after the system had gone quiescent)",
+					fmt.Sprintf("uid=%d start@%d shutdown-called@%d stall@%d return@%d", cl.UID, d.t, c.S.shutCalled, cc.stallStamp, d.retT))
+			}
+		}
+	}
+	cc.log.mu.Lock()
+	mr := c.S.maxRunning
+	if c.T.maxRunning > mr {
+		mr = c.T.maxRunning
+	}
+	atCap := c.S.maxRunning == c.S.max || c.T.maxRunning == c.T.max
+	cc.log.mu.Unlock()
+	if atCap {
+		c.counts["scripts_reaching_cap"]++
+	}
+	cc.rec.Max("max_c12_running", int64(mr))
+}
+
+// fifoCheck: porcupine check of the delivery order of the calls pipelined on
+// one (answer, path) against a FIFO queue: enq = the PipelineSend/Recv call
+// (it ends at the latest when the call is delivered), deq = the delivery.
+type fifoIn struct {
+	Enq bool
+	UID uint64
+}
+
+func (c *c12) fifoCheck(cs []*c12call, dl map[uint64]*dlvInfo) {
+	var ops []porcupine.Operation
+	sort.Slice(cs, func(i, j int) bool { return cs[i].tCall < cs[j].tCall })
+	for _, cl := range cs {
+		d := dl[cl.UID]
+		end := cl.tRet
+		if d.t < end {
+			end = d.t
+		}
+		if end <= cl.tCall {
+			end = cl.tCall + 1
+		}
+		ops = append(ops, porcupine.Operation{ClientId: 0, Input: fifoIn{true, cl.UID}, Call: 2 * cl.tCall, Output: uint64(0), Return: 2*end - 1})
+	}
+	// deliveries in log order: each deq must return the queue head
+	ds := append([]*c12call(nil), cs...)
+	sort.Slice(ds, func(i, j int) bool { return dl[ds[i].UID].t < dl[ds[j].UID].t })
+	for _, cl := range ds {
+		t := dl[cl.UID].t
+		ops = append(ops, porcupine.Operation{ClientId: 1, Input: fifoIn{false, 0}, Call: 2 * t, Output: cl.UID, Return: 2 * t})
+	}
+	model := porcupine.Model{
+		Init: func() interface{} { return "" },
+		Step: func(state, input, output interface{}) (bool, interface{}) {
+			q := state.(string)
+			in := input.(fifoIn)
+			if in.Enq {
+				return true, q + fmt.Sprintf("%d,", in.UID)
+			}
+			head := fmt.Sprintf("%d,", output.(uint64))
+			if !strings.HasPrefix(q, head) {
+				return false, q
+			}
+			return true, q[len(head):]
+		},
+		Equal: func(a, b interface{}) bool { return a.(string) == b.(string) },
+	}
+	switch porcupine.CheckOperationsTimeout(model, ops, 20*time.Second) {
+	case porcupine.Ok:
+		c.counts["fifo_histories_ok"]++
+		c.counts["fifo_history_ops"] += int64(len(ops))
+	case porcupine.Unknown:
+		c.cc.rec.Inconclusive("porcupine timeout (C12 FIFO history)")
+	default:
+		var sb strings.Builder
+		for _, cl := range cs {
+			fmt.Fprintf(&sb, "uid=%d issue=[%d,%d] delivered@%d\n", cl.UID, cl.tCall, cl.tRet, dl[cl.UID].t)
+		}
+		c.cc.violate("C12/fifo-linearizability", "delivery order of the calls pipelined on one answer/path is not a FIFO linearization of their issue order", sb.String())
+	}
+}
+
+// ---- selfpipe mode -------------------------------------------------------------------
+
+// runSelfPipe: deterministic scenarios in which an answer of S returns a
+// capability to S itself while every call slot of S is occupied by the
+// returning calls, with pipelined calls queued on those answers.
+func (c *c12) runSelfPipe(rec *common.Recorder, idx uint64) bool {
+	cc := c.cc
+	variant := int(idx % 3)
+	nslots := 1 + variant%2
+	c.S.max = nslots
+	c.S.srv = server.New([]server.Method{{Method: c12Method, Impl: c.body(c.S)}}, 0, userShutdown{c, c.S},
+		&server.Policy{MaxConcurrentCalls: nslots, AnswerQueueSize: 4})
+	c.sClient = capnp.NewClient(c.S.srv)
+	rec.Case(idx, fmt.Sprintf("c12 selfpipe variant=%d slots=%d", variant, nslots))
+	var roots []*c12call
+	for i := 0; i < nslots; i++ {
+		b := c.newBeh(c.rng, false)
+		b.Ack, b.Ret = ackNow, retGate
+		b.CapsS = [2]int{objS, objH}
+		cl := &c12call{Kind: "send", Srv: objS, Caller: i, B: b}
+		c.issueDirect(cl)
+		if !cc.await(cl.op.name, cl.op.isDone) {
+			return false
+		}
+		cl.waited = true
+		roots = append(roots, cl)
+	}
+	for _, r := range roots {
+		b := c.newBeh(c.rng, true)
+		b.Ack, b.Ret = ackNow, retEarly
+		kind := "psend"
+		if variant == 2 {
+			kind = "precv"
+		}
+		p := &c12call{Kind: kind, parent: r, Path: 0, B: b, Caller: -1}
+		c.issuePipe(p)
+		if !cc.await(p.op.name, p.op.isDone) {
+			return false
+		}
+		p.waited = true
+	}
+	c.counts["selfpipe_scenarios"]++
+	return c.finishCase(c.rng)
+}
